@@ -21,7 +21,9 @@ func init() {
 	core.Register(&core.Part{
 		Name: "C04.fence", Prop: "C04", Race: true,
 		Cases: func(tier string) int { return tierN(tier, 100, 3000) },
-		Run:   func(tier string, seed uint64, idx int) core.Result { return runChaos("C04", "C04.fence", tier, seed, idx) },
+		Run: func(tier string, seed uint64, idx int) core.Result {
+			return runChaos("C04", "C04.fence", tier, seed, idx)
+		},
 		Rule: "the C03 schedules with fences placed in the middle of fire-and-forget write bursts while the hook follower.sync.before delays the follower's sync goroutine (appended-but-unsynced entries exist when NewTerm arrives) and leader.write.allocated delays writers; " +
 			"after every successful NewTerm(T, head) answer, on that node: the synced and the appended end of its log equal the reported head, stay equal while it is polled (no entry of a term >= T can have reached it yet: the harness is the coordinator), a client write is refused, stale Truncate / BecomeLeader / AddFollower of term T-1 are refused and change nothing, and no ack for an offset above the reported head leaves on a stream of an older term; " +
 			"non-trivial = >= 1 fence landed while the node had in-flight appends (appended or received within the last burst); distinct = schedule",
@@ -69,6 +71,13 @@ func installC04Hooks(ch *chaos) {
 			time.Sleep(100 * time.Microsecond)
 		}
 	})
+	// right at the hand-off to the WAL: whatever lets a NewTerm in between the leader's status check and the
+	// append shows as log growth after the answer
+	vhook.Set("leader.write.before-append", func(string, ...any) {
+		if x := next() % 4; x != 0 {
+			time.Sleep(time.Duration(x*400) * time.Microsecond)
+		}
+	})
 	vhook.Set("follower.append.appended", func(_ string, args ...any) {
 		if len(args) > 0 {
 			for _, n := range ch.c.Nodes {
@@ -97,7 +106,7 @@ func (m *c04AckMon) OnAckSent(s *rc.ReplStream, offset int64) {
 			s.Follower, f.term, f.head.Offset, offset, s.Term))
 	}
 }
-func (*c04AckMon) OnAckDelivered(*rc.ReplStream, int64)      {}
+func (*c04AckMon) OnAckDelivered(*rc.ReplStream, int64)       {}
 func (*c04AckMon) OnAppendSent(*rc.ReplStream, *proto.Append) {}
 
 func checkFence(ch *chaos, n *rc.Node, term int64, head rc.Head) {
